@@ -324,7 +324,10 @@ EXPONENTS = (0.3, 1.0, 3.0, 10.0, 30.0)
 
 def _e2e_case(arg):
     preset, mname, seed = arg
-    from grid.atomgrid import _get_rgrid_size
+    from vf.props.c05 import preset_tables
+
+    # number of radial points the preset prescribes (sum of its per-sector shell counts, read from the data file)
+    _get_rgrid_size = lambda preset, z: [int(np.sum(preset_tables(preset)[f"{z}_rad"]))]
     from grid.molgrid import MolGrid
     from vf.props.c05 import COUNT_PRESETS
 
